@@ -103,7 +103,20 @@ inductive Client12Ns where
   | literalSoap   -- needs the prefix `soap` to be declared on the Fault element
   deriving Repr, DecidableEq
 
+/-- where, in `process_request`, user-supplied event listeners run -/
+inductive Site where
+  | methodCall      -- `method_call`, before the user function
+  | returnObject    -- `method_return_object`, after it returned
+  deriving Repr, DecidableEq
+
+/-- which event manager the listener is registered with (`ctx.fire_event` fires both) -/
+inductive Level where
+  | application | service
+  deriving Repr, DecidableEq
+
 structure Facts09 where
+  /-- the listener calls that `process_request`'s `try` block covers (measured with a raising listener) -/
+  hooksInTry : List (Site × Level)
   /-- dedicated classes in the order their `isinstance` tests are made, with their status -/
   dedTable : List (Ded × Nat)
   clientTest : ClientTest
@@ -597,11 +610,14 @@ inductive Step where
   | raises (r : Raised)
   deriving Repr, Inhabited
 
-/-- user code: a plain function, or a generator function (first `next()`, then the rest of
-    its body which runs while the response is serialised) -/
+/-- user code: a plain function, a generator function (first `next()`, then the rest of
+    its body which runs while the response is serialised), or a plain function `body` with an event
+    listener at `site` that raises `r` (listeners are user code too: the documented place for
+    authentication is a `method_call` listener) -/
 inductive UserCode where
   | plain (s : Step)
   | gen (first : Step) (later : Option Raised)
+  | hook (site : Site) (level : Level) (r : Raised) (body : Step)
   deriving Repr, Inhabited
 
 /-- `ctx.out_object` -/
@@ -636,12 +652,27 @@ def funnel (F : Facts09) : Raised → Option (Cls × FaultV)
   | .redirect (some e) => some (genericFault F e)
   | .other e => some (genericFault F e)
 
-/-- Application.process_request -/
-def process (F : Facts09) : UserCode → Ctx
-  | .plain (.value v) => ⟨.value v, none⟩
-  | .plain (.raises (.redirect none)) => ⟨.noneList, none⟩
-  | .plain (.raises r) => ⟨.unset, funnel F r⟩
-  | .gen first later => ⟨.generator first later, none⟩
+def hookCovered (F : Facts09) (site : Site) (level : Level) : Bool := decide ((site, level) ∈ F.hooksInTry)
+
+/-- the context after `r` was raised inside the `try` block with `ctx.out_object` = `o` -/
+def afterRaise (F : Facts09) (o : OutObj) (r : Raised) : Ctx :=
+  match r with
+  | .redirect none => ⟨.noneList, none⟩
+  | r => ⟨o, funnel F r⟩
+
+/-- Application.process_request; `none` = the exception propagates out of it -/
+def process (F : Facts09) : UserCode → Option Ctx
+  | .plain (.value v) => some ⟨.value v, none⟩
+  | .plain (.raises r) => some (afterRaise F .unset r)
+  | .gen first later => some ⟨.generator first later, none⟩
+  -- the function itself raised: a `method_return_object` listener is never reached
+  | .hook .returnObject _ _ (.raises r') => some (afterRaise F .unset r')
+  -- the listener raises before the function is called: `ctx.out_object` is still unset
+  | .hook .methodCall level r _ =>
+    if hookCovered F .methodCall level then some (afterRaise F .unset r) else none
+  -- the listener raises after `ctx.out_object` has been assigned
+  | .hook .returnObject level r (.value v) =>
+    if hookCovered F .returnObject level then some (afterRaise F (.value v) r) else none
 
 /-! ## the WSGI transport (handle_rpc / handle_error) -/
 
@@ -710,7 +741,9 @@ def serializeFailed (F : Facts09) (p : Proto) (preset : Option Nat) (r : Raised)
 /-- WsgiApplication.handle_rpc from `get_out_object` on. `preset` = a response code the
     user code (or the in protocol) has already put into `ctx.transport.resp_code`. -/
 def wsgi (F : Facts09) (p : Proto) (preset : Option Nat) (u : UserCode) : HttpResult :=
-  let c := process F u
+  match process F u with
+  | none => .escapes
+  | some c =>
   match c.outError with
   | some e => handleError F p preset e
   | none =>
@@ -815,6 +848,7 @@ def Step.erase : Step → Step
 def UserCode.erase : UserCode → UserCode
   | .plain s => .plain s.erase
   | .gen first later => .gen first.erase (later.map Raised.erase)
+  | .hook site level r body => .hook site level r.erase body.erase
 
 /-! ## specification vocabulary (used by the property theorems) -/
 
